@@ -155,4 +155,10 @@ def Grid.tile {α} (g : Grid α) (r0 r1 : Nat) : Grid α := (g.hrep r1).vrep r0
 def padConstBlocks {α} (chunks : List Nat) (blocks : List (List α)) (l r : Nat) (v : α) : List (List α) :=
   splitBy (padChunks true chunks l) (List.replicate l v) ++ blocks ++ splitBy (padChunks true chunks r) (List.replicate r v)
 
+/-! ### squeeze / expand_dims of a leading axis of length one -/
+/-- `squeeze(x, axis=0)` of a `1 × M` array: `x[0, :]` (an integer index on the single block row) -/
+def squeezeRow {α} (g : Grid α) : Vec α := ⟨g.cc, fun j s => g.blk 0 j 0 s⟩
+/-- `expand_dims(x, 0)` of a 1-d array = `x.reshape((1, n))`: chunks `((1,), cs)`, block `(0, j)` = block `j` reshaped -/
+def expandRow {α} (v : Vec α) : Grid α := ⟨[1], v.cs, fun _ j _ s => v.blk j s⟩
+
 end Dask.Structural
